@@ -95,6 +95,37 @@ fn random_diff(src: &mut Src, obs: &mut Obs) -> Res {
             obs.nontrivial(&(text.as_str(), doc.text()), || json!({"query": text, "doc": doc.to_value(), "results": rows.len()}));
         }
     }
+    // the values-only entry point: the same values on every type
+    {
+        obs.eval(3);
+        let qv: Result<Vec<J>, String> = match guarded(|| v.query(&text)) {
+            Ok(Ok(r)) => Ok(r.into_iter().map(J::from_value).collect()),
+            Ok(Err(_)) => Err("Err".into()),
+            Err(p) => Err(format!("panic: {}", p)),
+        };
+        let q1: Result<Vec<J>, String> = match guarded(|| v1.query(&text)) {
+            Ok(Ok(r)) => Ok(r.into_iter().map(|x| x.to_j()).collect()),
+            Ok(Err(_)) => Err("Err".into()),
+            Err(p) => Err(format!("panic: {}", p)),
+        };
+        let same = match (&qv, &q1) {
+            (Ok(a), Ok(b)) => a.len() == b.len() && a.iter().zip(b).all(|(x, y)| eq_json(x, y)),
+            (Err(a), Err(b)) => a == b,
+            _ => false,
+        };
+        let agrees_with_paths = match (&qv, &rv) {
+            (Ok(a), Ok(b)) => a.len() == b.len() && a.iter().zip(b).all(|(x, (_, y))| eq_json(x, y)),
+            (Err(_), Err(_)) => true,
+            _ => false,
+        };
+        if !same || !agrees_with_paths {
+            return Err(Failure::new(
+                "JsonPath::query gives different values on serde_json::Value than on a faithful Queryable type (or than query_with_path on the same Value)",
+                json!({"query": text, "doc": doc.to_value(), "query_on_value": format!("{:?}", qv.as_ref().map(|v| v.iter().map(|j| j.text()).collect::<Vec<_>>())),
+                       "query_on_other_type": format!("{:?}", q1.as_ref().map(|v| v.iter().map(|j| j.text()).collect::<Vec<_>>())), "query_with_path_on_value": show(&rv)}),
+            ));
+        }
+    }
     for (name, r) in [("V1 (insertion-ordered members, Int/Float variants)", &r1), ("V2 (f64 numbers, sorted map)", &r2)] {
         let same = match (&rv, r) {
             (Ok(a), Ok(b)) => rows_equal(a, b),
